@@ -36,10 +36,10 @@ func GetTracesQuery(ctx context.Context, idx *SQLIndexQuery, limit int, fromNS i
 		query.AndWhere(sql.Le(sql.NewRawObject("start_time_unix_nano"), sql.NewIntVal(toNS)))
 	}
 	if minDurationNS > 0 {
-		query.AndWhere(sql.Ge(sql.NewRawObject("duration_ms"), sql.NewIntVal(minDurationNS/1e6)))
+		query.AndWhere(sql.Ge(sql.NewRawObject("duration_ns"), sql.NewIntVal(minDurationNS)))
 	}
 	if maxDurationNS > 0 {
-		query.AndWhere(sql.Le(sql.NewRawObject("duration_ms"), sql.NewIntVal(maxDurationNS/1e6)))
+		query.AndWhere(sql.Le(sql.NewRawObject("duration_ns"), sql.NewIntVal(maxDurationNS)))
 	}
 	if limit > 0 {
 		query.Limit(sql.NewIntVal(int64(limit)))
